@@ -347,6 +347,18 @@ theorem rustOkSelsD_mem {c : Ctx} : ∀ {sels : List Sel}, rustOkSelsD c sels = 
     · exact h.1
     · exact rustOkSelsD_mem h.2 x hx'
 
+theorem rustOkSelsD_append {c : Ctx} : ∀ {xs ys : List Sel},
+    rustOkSelsD c xs = true → rustOkSelsD c ys = true → rustOkSelsD c (xs ++ ys) = true
+  | [], _, _, h => h
+  | x :: xs, ys, h1, h2 => by
+    rw [rustOkSelsD, Bool.and_eq_true] at h1
+    rw [List.cons_append, rustOkSelsD, h1.1, rustOkSelsD_append h1.2 h2]; rfl
+
+def fcanonOfKD (s : Schema) (q : Query) (skip : Bool) (sels : List Sel) (f : RField) (v : Json) : Json :=
+  match sels.find? (fun x => fieldKey s x == some f.wire) with
+  | some x => canonFieldD s q skip x v
+  | none => v
+
 theorem rustOkFrag_of_D {c : Ctx} {g : Nat} {f : RFragment} {i : Nat} (h : rustOkSelD c (.spread g) = true)
     (hf : c.q.fragments[g]? = some f) (hon : f.on = .object i) : rustOkFrag c g = true := by
   simpa [rustOkSelD, hf, hon, TypeId.isAbstract] using h
@@ -495,7 +507,6 @@ theorem rtVarStructD (pfx : String) (ty : TypeId) (rt : Nat) (sub : List Sel)
   obtain ⟨hnd, hst⟩ := hownok
   have hsp := spreadsA_abs hty hok
   obtain ⟨hok1, _, hvk⟩ := absOkS_parts hok
-  obtain ⟨_, _, _, _, _, _, hind, _⟩ := absOk_parts hok1
   obtain ⟨fuel, rfl⟩ : ∃ k, fd = k + 2 := ⟨fd - 2, by omega⟩
   obtain ⟨fs', rfl⟩ : ∃ k, fs = k + 2 := ⟨fs - 2, by omega⟩
   have hcnt := countKey_le_one_of_nodup hnd
@@ -509,35 +520,31 @@ theorem rtVarStructD (pfx : String) (ty : TypeId) (rt : Nat) (sub : List Sel)
   have hown_eq : (varFields c pfx (.object rt) sub).filter (fun f => !f.flatten) =
       fieldsOfV c (pfx ++ "On" ++ c.cs.camel (objName c.s (.object rt))) (ownSels (.object rt) sub) := by
     rw [varFields_own, varOwn_ownSels]
-  obtain ⟨hos1, hos2⟩ := ownSels_spec (.object rt) sub hind
-  have hownS : sSels c.s c.q c.o false (ownSels (.object rt) sub) = true ∧
-      EnumSpec.nodup (respKeys c.s (ownSels (.object rt) sub)) = true ∧
-      envSelsS e c (pfx ++ "On" ++ c.cs.camel (objName c.s (.object rt))) (ownSels (.object rt) sub) ∧
-      rustOkSelsD c (ownSels (.object rt) sub) = true ∧
-      depthsF c.q (ownSels (.object rt) sub) + 1 ≤ depthsF c.q sub := by
-    by_cases hm : TypeId.object rt ∈ sub.filterMap inlineTy
-    · obtain ⟨y, hy, hyt⟩ := List.mem_filterMap.mp hm
-      cases y with
-      | inline t' isub =>
-        simp only [inlineTy, Option.some.injEq] at hyt
-        subst hyt
-        rw [hos2 isub hy]
-        have hvy := sSels_mem ht _ hy
-        simp only [sSel, Bool.and_eq_true] at hvy
-        have hey := envSelsS_mem henv _ hy
-        rw [envSelS] at hey
-        have hry := rustOkSelsD_mem hro _ hy
-        rw [rustOkSelD] at hry
-        have hdep := depthsF_mem c.q hy
-        rw [depthF] at hdep
-        exact ⟨hvy.1.2, hvy.2, hey, hry, by omega⟩
-      | field a fid sub' => cases hyt
-      | spread g => cases hyt
-      | typename => cases hyt
-    · rw [hos1 hm]
-      exact ⟨rfl, rfl, trivial, rfl, by simp only [depthsF]; omega⟩
-  obtain ⟨hoS, hoK, hoE, hoR, hoD⟩ := hownS
-  have hkn := nodup_iff'.mp hoK
+  have hinl : ∀ isub, Sel.inline (.object rt) isub ∈ sub →
+      sSels c.s c.q c.o false isub = true ∧
+      envSelsS e c (pfx ++ "On" ++ c.cs.camel (objName c.s (.object rt))) isub ∧
+      rustOkSelsD c isub = true ∧
+      depthsF c.q isub + 1 ≤ depthsF c.q sub := by
+    intro isub hy
+    have hvy := sSels_mem ht _ hy
+    simp only [sSel, Bool.and_eq_true] at hvy
+    have hey := envSelsS_mem henv _ hy
+    rw [envSelS] at hey
+    have hry := rustOkSelsD_mem hro _ hy
+    rw [rustOkSelD] at hry
+    have hdep := depthsF_mem c.q hy
+    rw [depthF] at hdep
+    exact ⟨hvy.1.2, hey, hry, by omega⟩
+  have hownS := ownSels_ind (P := fun l => sSels c.s c.q c.o false l = true ∧
+      envSelsS e c (pfx ++ "On" ++ c.cs.camel (objName c.s (.object rt))) l ∧
+      rustOkSelsD c l = true ∧
+      depthsF c.q l + 1 ≤ depthsF c.q sub) (.object rt)
+    ⟨rfl, trivial, rfl, by simp only [depthsF]; omega⟩
+    (fun xs ys hx hy => ⟨sSels_append hx.1 hy.1, envSelsS_append hx.2.1 hy.2.1, rustOkSelsD_append hx.2.2.1 hy.2.2.1,
+      by rw [depthsF_append]; omega⟩) sub hinl
+  obtain ⟨hoS, hoE, hoR, hoD⟩ := hownS
+  have hkn : (fieldKeys c.s (ownSels (.object rt) sub)).Nodup :=
+    (fieldKeys_ownSels_sublist c.s c.q (.object rt) sub).nodup (hvk _ hvt)
   -- the members
   have hmemrt : ∀ gid fr, Sel.spread gid ∈ sub → c.q.fragments[gid]? = some fr → fr.on = .object rt →
       ∃ y, vals.find? (·.1 == (memberField c fr).rust) = some ((memberField c fr).rust, y) ∧
@@ -569,27 +576,26 @@ theorem rtVarStructD (pfx : String) (ty : TypeId) (rt : Nat) (sub : List Sel)
     simp only [mc, hf, hser]
   have hfcanon : ∀ a fid sub', Sel.field a fid sub' ∈ ownSels (.object rt) sub → ∀ f,
       fieldOfSelV c (pfx ++ "On" ++ c.cs.camel (objName c.s (.object rt))) (.field a fid sub') = some f →
-      ∀ v, fcanonOfD c.s c.q c.o.skipNone (ownSels (.object rt) sub) f v =
+      ∀ v, fcanonOfKD c.s c.q c.o.skipNone (ownSels (.object rt) sub) f v =
         canonFieldD c.s c.q c.o.skipNone (.field a fid sub') v := by
     intro a fid sub' hx f hfx v
     obtain ⟨sf, ft, hsf, _, hf', _⟩ := fieldOfSelV_s c _ false a fid sub' (sSels_mem hoS _ hx)
     rw [hf'] at hfx
     cases hfx
-    unfold fcanonOfD
-    rw [fieldOf_wire, find_respKey c.s _ _ hkn _ hx (by simp [respKey, hsf])]
+    unfold fcanonOfKD
+    rw [fieldOf_wire, find_fieldKey c.s _ _ hkn _ hx (by simp [fieldKey, hsf])]
   have hnonfl : ∀ f ∈ varFields c pfx (.object rt) sub, f.flatten = false →
       f ∈ fieldsOfV c (pfx ++ "On" ++ c.cs.camel (objName c.s (.object rt))) (ownSels (.object rt) sub) := by
     intro f hf hfl
     rw [← hown_eq]; exact List.mem_filter.mpr ⟨hf, by simp [hfl]⟩
   rw [serPath_struct e (fs' + 1) _ n d cr _ hfind,
-    ser_flat (dePath e true (fuel + 1)) (serPath e (fs' + 1)) (fcanonOfD c.s c.q c.o.skipNone (ownSels (.object rt) sub))
+    ser_flat (dePath e true (fuel + 1)) (serPath e (fs' + 1)) (fcanonOfKD c.s c.q c.o.skipNone (ownSels (.object rt) sub))
       mc kvs vals (varFields c pfx (.object rt) sub) hownf ?_ ?_ ?_ ?_]
   · rw [flatMap_entriesF_varD c pfx (.object rt) _ mc kvs sub ht ?_ hmc]
     · rfl
     · intro t isub hm htv a fid sub' hx f hfx v
       subst htv
-      have : ownSels (.object rt) sub = isub := hos2 isub hm
-      exact hfcanon a fid sub' (this ▸ hx) f hfx v
+      exact hfcanon a fid sub' (mem_ownSels_of hm hx) f hfx v
   · intro f hf hfl j y hl hdx
     obtain ⟨a, fid, sub', sf, ft, hx, hsf, hfx, rfl, _⟩ := mem_fieldsOfS (hnonfl f hf hfl) hoS
     rw [fieldOf_wire] at hl
@@ -696,7 +702,7 @@ theorem rtTaggedD (pfx p : String) (ty : TypeId) (sub : List Sel)
     serPath e (fs + 1) p r = .ok (.obj (("__typename", .str (rtName c.s rt)) ::
       canonVarD c.s c.q c.o.skipNone (rtName c.s rt) sub kvs)) := by
   obtain ⟨hok1, hsp, _⟩ := absOkS_parts hok
-  obtain ⟨htn, hrk, hobj, _, hvn, hin, hind, hexcl⟩ := absOk_parts hok1
+  obtain ⟨htn, hrk, hobj, _, hvn, hin, hind, hexcl⟩ := absOk2_parts hok1
   obtain ⟨hp, _, n, d, cr, hfind⟩ := hs
   have hcnt := countKey_le_one_of_nodup hnd
   have hl2 : Json.lookup "__typename" (kvs.filter q') = some (.str (rtName c.s rt)) := by
@@ -1147,11 +1153,11 @@ theorem canonEntriesBD_nostruct (s : Schema) (q : Query) (skip : Bool) (ty : Typ
 
 /-- what a response object conforming at an abstract position (spreads expanded) looks like -/
 theorem abs_conf_factsD {s : Schema} {q : Query} {o : Options} {ty : TypeId} {sub : List Sel} {j : Json}
-    (hty : absHyp s ty) (hok : absOk s o ty sub = true) (h : conformsAt s ty (expandSels q sub) j = true) :
+    (hty : absHyp s ty) (hok : absOk2 s o ty sub = true) (h : conformsAt s ty (expandSels q sub) j = true) :
     ∃ rt kvs, j = .obj kvs ∧ (kvs.map (·.1)).Nodup ∧ confSelsV s rt (expandSels q sub) kvs = true ∧
       Json.lookup "__typename" kvs = some (.str (rtName s rt)) ∧ TypeId.object rt ∈ vtsOfTy s ty ∧
       fragApplies s rt ty = true := by
-  obtain ⟨htn, _, _, _, _, _, _, _⟩ := absOk_parts hok
+  obtain ⟨htn, _, _, _, _, _, _, _⟩ := absOk2_parts hok
   simp only [conformsAt, List.any_eq_true, List.mem_range, Bool.and_eq_true] at h
   obtain ⟨rt, hrt, happ, hc⟩ := h
   cases j with
